@@ -5,7 +5,7 @@ from vsym.core import (SInt, SBool, SBytesBase, blist, bytes_eq, s_and, s_or, s_
 from vsym.runner import Job, main
 from env.simradio import SimRadio, FakeSpiDev, FakeBus, Pin
 from env.vclock import VClock
-from env.medium import Medium, ScriptedLink
+from env.medium import Medium, ScriptedLink, symbolic_schedule
 
 
 def mods():
